@@ -501,3 +501,220 @@ Theorem C13_third_round_example :
   objs (steps 6 ex_s) 0 = [] /\ llocked (getl (steps 6 ex_s) 0) = false.
 Proof. exact ex_progress. Qed.
 Print Assumptions C13_third_round_example.
+
+(* ====================================================================================
+   Fourth round (Sched/LockRounds.v, LockFifo.v, LockRoundsEx.v): the induction over rounds -
+   "so if holders eventually release, every acquirer that is not cancelled eventually gets the
+   lock" - on the list ready queue, in the quiet environment of the third round ([quiet n s]:
+   the next n actions are AStep actions that execute no positional scheduling and satisfy the
+   C13 side condition; [steps n s]).
+
+   Fix a PriorityLock l and the waiter future fw of an acquirer w queued on it.  Vocabulary
+   (LockRounds.v):
+     before s l g f    : the heap entry of g is strictly before the entry of f in the order of
+                         PriEntry.__lt__ (stored key, then arrival number; C12_entry_order);
+     blocker s l fw g  : g <> fw and (before s l g fw, or g has been woken with a result): g
+                         gets the lock before w can;
+     nblk s l fw       : THE MEASURE - the number of queued entries that are blockers of fw;
+     gain l fw s s'    : the number of blockers in s' that were not blockers in s, counted only
+                         if fw is still queued and pending in s' ("w is overtaken");
+     gains l fw n s    : the sum of the gains of the next n steps;
+     bound K M m       : (m + 1) * (K + M) + M.
+   Run-checked hypotheses (all stated on the states [steps k s] of the run, like [quiet]):
+     - "holders eventually release" [releases_within K]: whenever l is locked in a state of the
+       run it is unlocked in a state at most K steps later (K loop steps; if a holder is always
+       runnable and releases within k of its own steps, K = k * M by C13_handle_runs_within);
+     - the ready queue never holds more than M handles [rbound M] (third round);
+     - [nocb]: no CANCELLED waiter queued BEHIND w - every queued entry whose future is done is
+       fw itself or a blocker.  (Needed because the proved wake-up invariant I4 promises only
+       SOME done waiter when the lock is free; a stronger invariant "a woken waiter, or the heap
+       head, is done" was not proved.  Cancelled waiters AHEAD of w are covered: they are
+       blockers, run within M steps and pass the wake-up on.)
+   Conclusion: W'S TURN COMES at some step n < bound: fw stayed queued in the states 0..n, and
+   in state n the head handle of the ready queue belongs to the task t suspended in acquire()'s
+   `await fw` - the next step is the step of C13_waiter_step, which takes the lock iff w was
+   woken with the result and no exception is delivered (C13_turn_is_served below). *)
+From Asynkit Require Import Sched.LockRounds Sched.LockFifo Sched.LockRoundsEx.
+
+(* 4a. Served unless overtaken.  If the measure plus all gains of the run is at most m (r
+   entries ahead of w and at most A later overtakings: m = r + A), w's turn comes within
+   (m + 1) * (K + M) + M steps.  Each round costs at most K steps (the holder releases) plus M
+   steps (the waiter in flight runs) and removes a blocker; the last M: w's own handle. *)
+Theorem C13_served_unless_overtaken :
+  forall factor draws lks cds nev acts,
+    let s0 := init_st false factor draws lks cds nev in
+    run_ok s0 acts -> PartitionRun.actions_ok s0 acts ->
+    let s := fold_left do_action acts s0 in
+    forall K M l fw m,
+    let B := bound K M m in
+    lkind_ (getl s l) = LPrio -> In fw (pq_objs (lpq (getl s l))) ->
+    quiet B s ->
+    (forall k, k <= B -> rq_len (ready (steps k s)) <= M) ->
+    (forall i, i <= B -> llocked (getl (steps i s) l) = true ->
+       exists j, i < j <= i + K /\ llocked (getl (steps j s) l) = false) ->
+    (forall k, k <= B -> forall g, In g (pq_objs (lpq (getl (steps k s) l))) ->
+       fdone (steps k s) g = true -> g = fw \/ blocker (steps k s) l fw g = true) ->
+    nblk s l fw + gains l fw B s <= m ->
+    exists n t, n < B /\
+      (forall j, j <= n -> In fw (pq_objs (lpq (getl (steps j s) l)))) /\
+      In fw (pq_objs (lpq (getl (steps n s) l))) /\
+      (exists had rest, tframes (steps n s) t = InFut fw :: InAcquireP l fw had :: rest) /\
+      exists h q, ready (steps n s) = RList (h :: q) /\ task_of_handle (steps n s) h = Some t.
+Proof.
+  intros factor draws lks cds nev acts s0 H1 H2 s K M l fw m B Hk Hf Hq Hb Hrel Hcb Hm.
+  exact (served_rounds K M l fw m s (R_reach factor draws lks cds nev acts H1 H2) Hk Hf Hq Hb Hrel Hcb Hm).
+Qed.
+Print Assumptions C13_served_unless_overtaken.
+
+(* 4b. FIFO among equals: one step.  [fw < length futs]: w's future exists.  If in s and in
+   s' = run_one s all stored keys of l are equal ([eqkeys]; in particular plain tasks: key 0),
+   arrival numbers follow creation order ([arrival_ids]: fo a < fo b -> eseq a < eseq b; each
+   acquire() creates its future and its entry together - C12_arrival_numbers; run-checked here,
+   not derived), the holder of l is not itself suspended in an acquire() ([calmf], the side
+   condition of C12_no_overtake_keys) and no entry is woken in the very step in which it arrives
+   ([arrivals_pending]; run-checked, not derived), then the step has NO GAIN: a newcomer of equal
+   priority queues BEHIND w (larger arrival number), and a waiter behind w is not woken while w
+   keeps waiting (C12's no-overtake pass).  So newcomers do not delay w. *)
+Theorem C13_served_in_arrival_order_equal_priorities :
+  forall factor draws lks cds nev acts,
+    let s0 := init_st false factor draws lks cds nev in
+    run_ok s0 acts -> PartitionRun.actions_ok s0 acts ->
+    let s := fold_left do_action acts s0 in
+    forall l fw,
+    run_one_ok s /\ run_one_np s -> fw < length (futs s) ->
+    eqkeys s l -> arrival_ids s l -> NoOvertakeThms.calmf s l ->
+    eqkeys (run_one s) l -> arrival_ids (run_one s) l -> arrivals_pending l s (run_one s) ->
+    gain l fw s (run_one s) = 0.
+Proof.
+  intros factor draws lks cds nev acts s0 H1 H2 s l fw.
+  exact (no_gain_equal s l fw (R_reach factor draws lks cds nev acts H1 H2)).
+Qed.
+Print Assumptions C13_served_in_arrival_order_equal_priorities.
+
+(* 4c. C13_every_acquirer_served for equal priorities.  [fifo_run l B s]: the four conditions of
+   4b hold in every state [steps k s], k <= B, of the run.  Then the gains are zero and an
+   acquirer with at most r entries ahead of it (r >= nblk) has its turn within
+   (r + 1) * (K + M) + M steps - unless nothing: if it is cancelled meanwhile its turn comes all
+   the same and the step is the exception case of C13_waiter_step. *)
+Theorem C13_every_acquirer_served :
+  forall factor draws lks cds nev acts,
+    let s0 := init_st false factor draws lks cds nev in
+    run_ok s0 acts -> PartitionRun.actions_ok s0 acts ->
+    let s := fold_left do_action acts s0 in
+    forall K M l fw r,
+    let B := bound K M r in
+    lkind_ (getl s l) = LPrio -> In fw (pq_objs (lpq (getl s l))) ->
+    quiet B s ->
+    (forall k, k <= B -> rq_len (ready (steps k s)) <= M) ->
+    (forall i, i <= B -> llocked (getl (steps i s) l) = true ->
+       exists j, i < j <= i + K /\ llocked (getl (steps j s) l) = false) ->
+    (forall k, k <= B -> forall g, In g (pq_objs (lpq (getl (steps k s) l))) ->
+       fdone (steps k s) g = true -> g = fw \/ blocker (steps k s) l fw g = true) ->
+    fifo_run l B s ->
+    nblk s l fw <= r ->
+    exists n t, n < B /\
+      (forall j, j <= n -> In fw (pq_objs (lpq (getl (steps j s) l)))) /\
+      In fw (pq_objs (lpq (getl (steps n s) l))) /\
+      (exists had rest, tframes (steps n s) t = InFut fw :: InAcquireP l fw had :: rest) /\
+      exists h q, ready (steps n s) = RList (h :: q) /\ task_of_handle (steps n s) h = Some t.
+Proof.
+  intros factor draws lks cds nev acts s0 H1 H2 s K M l fw r B Hk Hf Hq Hb Hrel Hcb Hff Hm.
+  exact (served_equal K M l fw r s (R_reach factor draws lks cds nev acts H1 H2) Hk Hf Hq Hb Hrel Hcb Hff Hm).
+Qed.
+Print Assumptions C13_every_acquirer_served.
+
+(* 4d. Where gains come from when priorities differ: a new blocker g of w after a step (w still
+   queued and pending) is either a NEWCOMER (a fresh future: an arrival queued before w, i.e.
+   more urgent) or an entry whose order relative to w was FLIPPED by the step (re-keying by
+   priority inheritance or its undoing); an entry that stays behind w is never woken while w
+   waits.  (That a newcomer's key is strictly smaller and that a flip changes a key - arrival
+   numbers are kept - is C12_arrival_numbers / C12_key_tracks_eprio at the level of the queue
+   operations; not carried through the step here.) *)
+Theorem C13_overtaking_is_arrival_or_rekeying :
+  forall factor draws lks cds nev acts,
+    let s0 := init_st false factor draws lks cds nev in
+    run_ok s0 acts -> PartitionRun.actions_ok s0 acts ->
+    let s := fold_left do_action acts s0 in
+    forall l fw g,
+    run_one_ok s /\ run_one_np s -> NoOvertakeThms.calmf s l -> fw < length (futs s) ->
+    In fw (pq_objs (lpq (getl (run_one s) l))) /\ fdone (run_one s) fw = false ->
+    In g (blockers (run_one s) l fw) -> ~ In g (blockers s l fw) ->
+    (~ In g (pq_objs (lpq (getl s l))) /\ length (futs s) <= g) \/
+    (In g (pq_objs (lpq (getl s l))) /\ before s l g fw = false /\ before (run_one s) l g fw = true).
+Proof.
+  intros factor draws lks cds nev acts s0 H1 H2 s l fw g.
+  exact (gain_char s l fw g (R_reach factor draws lks cds nev acts H1 H2)).
+Qed.
+Print Assumptions C13_overtaking_is_arrival_or_rekeying.
+
+(* 4e. What the turn is: when w's turn has come, w was woken with the result, its wake-up handle
+   is the head handle and its task was not cancelled meanwhile, the step makes its task the OWNER
+   before its code continues (otherwise the exception case of C13_waiter_step: the entry leaves
+   and the wake-up is passed on). *)
+Theorem C13_turn_is_served :
+  forall factor draws lks cds nev acts,
+    let s0 := init_st false factor draws lks cds nev in
+    run_ok s0 acts -> PartitionRun.actions_ok s0 acts ->
+    let s := fold_left do_action acts s0 in
+    (forall t, tdone s t = true -> tframes s t = []) ->
+    forall l f t v h q had rest k,
+    In f (pq_objs (lpq (getl s l))) ->
+    ready s = RList (h :: q) -> task_of_handle s h = Some t -> hcb (geth s h) = HWakeup t f ->
+    fstate_ (getf s f) = FResult v ->
+    tcont_ (gett s t) = TSusp (InFut f :: InAcquireP l f had :: rest) k ->
+    tmustc (gett s t) = false ->
+    let s1 := step_pre (s <| ready := RList q |>) t in
+    let s4 := fst (acquire_p_finish s1 t l f had (RVal v)) in
+    run_one s = step_post t rest k (RVal 1) s4 /\
+    lowner (getl s4 l) = Some t /\ llocked (getl s4 l) = true /\ ~ In f (objs s4 l).
+Proof.
+  intros factor draws lks cds nev acts s0 H1 H2 s Hx l f t v h q had rest k Hf Eq Hth Hcb Hs Hk Hm.
+  assert (Ht : turn s l f t).
+  { split; [exact Hf|]. split; [exists had, rest; unfold tframes; now rewrite Hk|]. exists h, q. auto. }
+  exact (turn_served s l f t (R_reach factor draws lks cds nev acts H1 H2) Hx Ht v h q had rest k Eq Hcb Hs Hk Hm).
+Qed.
+Print Assumptions C13_turn_is_served.
+
+(* 4f. Instance (vm_compute from init_st, list loop): holder H and three contenders W1, W2, W3 of
+   EQUAL priority 5, W2 cancelled while queued.  fw = 6 (W3): two blockers [4; 5], no gains;
+   C13_served_unless_overtaken (m = 2) and C13_every_acquirer_served (r = 2) with K = 1, M = 2
+   give W3's turn within bound 1 2 2 = 11 steps; by computation the lock goes H, W1, (W2 passes),
+   W3, and everybody ends served or cancelled. *)
+Theorem C13_fourth_round_example :
+  (lowner (getl f_s 0) = Some 0 /\ objs f_s 0 = [4; 5; 6] /\
+   map (fun e => (epri e, eseq e)) (arr (lpq (getl f_s 0))) = [(5%Q, 0%Z); (5%Q, 1%Z); (5%Q, 2%Z)] /\
+   map (fun f => fstate_ (getf f_s f)) [4; 5; 6] = [FPending; FCancelled; FPending] /\
+   blockers f_s 0 6 = [4; 5] /\ gains 0 6 11 f_s = 0 /\
+   (exists n t, n < bound 1 2 2 /\ (forall j, j <= n -> In 6 (objs (steps j f_s) 0)) /\
+                turn (steps n f_s) 0 6 t) /\
+   map (fun k => lowner (getl (steps k f_s) 0)) [0; 1; 2; 3; 4; 5; 6] =
+     [Some 0; None; None; Some 1; None; Some 3; None] /\
+   map (fun k => objs (steps k f_s) 0) [1; 2; 3; 4; 5] = [[4; 5; 6]; [4; 6]; [6]; [6]; []] /\
+   map (fun t => fstate_ (getf (steps 7 f_s) (tfut t))) (tasks (steps 7 f_s)) =
+     [FResult 0; FResult 0; FCancelled; FResult 0]) /\
+  (fifo_run 0 11 f_s /\
+   exists n t, n < bound 1 2 2 /\ (forall j, j <= n -> In 6 (objs (steps j f_s) 0)) /\
+               turn (steps n f_s) 0 6 t).
+Proof. exact (conj f_served (conj f_fifo f_served_equal)). Qed.
+Print Assumptions C13_fourth_round_example.
+
+(* 4g. The qualification is necessary: starvation by a stream of more urgent newcomers.  W
+   (priority 10, future 2) is the only waiter behind the holder (no blocker); a generator task
+   keeps spawning contenders of priority 0 that arrive while the lock is held.  Every hypothesis
+   of C13_served_unless_overtaken holds for m = 0 on the first bound 8 3 0 = 14 steps except the
+   budget (3 gains by then, 4 in all), and W is still queued and pending in every state up to step
+   26 while the lock is handed to the four newcomers; when the stream ends W is served (step 27),
+   as the theorem says for m = 4 (bound 58).  (This is the intended semantics of a priority lock.) *)
+Theorem C13_starvation_by_stream :
+  lowner (getl g_s 0) = Some 0 /\ objs g_s 0 = [2] /\ nblk g_s 0 2 = 0 /\
+  R g_s /\ quiet (bound 8 3 0) g_s /\ rbound 3 (bound 8 3 0) g_s /\
+  releases_within 8 0 (bound 8 3 0) g_s /\ nocb 0 2 (bound 8 3 0) g_s /\
+  gains 0 2 (bound 8 3 0) g_s = 3 /\ gains 0 2 27 g_s = 4 /\
+  forallb (fun k => existsb (Nat.eqb 2) (objs (steps k g_s) 0) && negb (fdone (steps k g_s) 2))
+          (seq 0 27) = true /\
+  map (fun k => lowner (getl (steps k g_s) 0)) [11; 18; 22; 25] = [Some 3; Some 4; Some 5; Some 6] /\
+  (exists n t, n < bound 8 3 4 /\ (forall j, j <= n -> In 2 (objs (steps j g_s) 0)) /\
+               turn (steps n g_s) 0 2 t) /\
+  objs (steps 27 g_s) 0 = [2] /\ objs (steps 28 g_s) 0 = [].
+Proof. exact g_starved. Qed.
+Print Assumptions C13_starvation_by_stream.
